@@ -65,14 +65,23 @@ def canon(x):
     return ("?", type(x).__name__, repr(x)[:60])
 
 
-def seqs(x):
-    """String results read as sequences of characters (used for string inputs, and for
-    list inputs wherever the implementation joins characters)."""
+def norm(x, depth):
+    """Read a result as nested sequences of the given depth: a string found where a
+    sequence is expected is the sequence of its characters (the implementation joins
+    characters back into strings); items below that depth are atoms."""
+    if depth <= 0:
+        return x
     if isinstance(x, str):
-        return list(x)
+        x = list(x)
     if isinstance(x, list):
-        return [seqs(y) for y in x]
+        return [norm(y, depth - 1) for y in x]
     return x
+
+
+def depth_of(want):
+    if isinstance(want, list):
+        return 1 + max((depth_of(y) for y in want), default=0)
+    return 0
 
 
 def _call(f, *args):
@@ -328,8 +337,7 @@ class Oracle:
         self.n[builtin] += 1
         if got is None:
             return
-        g, w = seqs(got), seqs(want)
-        if isinstance(got, Exc) or g != w:
+        if isinstance(got, Exc) or norm(got, depth_of(want)) != want:
             self.env.fail({"builtin": builtin, "input": inp}, f"{builtin}: {law}: implementation gives {got!r}, the law requires {want!r}"[:600],
                           cls=cls or f"{builtin}:{law}")
 
@@ -348,7 +356,7 @@ class Oracle:
         ck = lambda b, law, got, want, cls=None: self.check(b, law, inp, got, want, cls)  # noqa: E731
         ck("sort", "sorted()", r["sort"], sorted(s))
         if not isinstance(r["sort"], Exc):
-            g = seqs(r["sort"])
+            g = norm(r["sort"], 1)
             self.holds("sort", "ordered permutation", inp,
                        isinstance(g, list) and all(a <= b for a, b in zip(g, g[1:])) and collections.Counter(g) == collections.Counter(s), r["sort"])
         ck("reverse", "[::-1]", r["reverse"], s[::-1])
@@ -356,7 +364,7 @@ class Oracle:
         ck("uniquify", "first occurrences in order", r["uniquify"], list(dict.fromkeys(s)))
         ck("flatten", "flat list unchanged", r["flatten"], s)
         if is_str:
-            ck("sum", "concatenation", r["sum"], "".join(s) if s else 0)
+            ck("sum", "concatenation", r["sum"], s if s else 0)
         else:
             ck("sum", "sum()", r["sum"], sum(s))
             ck("product", "math.prod()", r["product"], math.prod(s), cls="product-empty" if not s else None)
@@ -374,14 +382,14 @@ class Oracle:
         want_suf = [s[i:] for i in range(n)]
         if is_str:
             if not isinstance(r["suffixes"], Exc):
-                self.holds("suffixes", "the n non-empty suffixes", inp, sorted(seqs(r["suffixes"])) == sorted(want_suf), r["suffixes"])
+                self.holds("suffixes", "the n non-empty suffixes", inp, sorted(norm(r["suffixes"], 2)) == sorted(want_suf), r["suffixes"])
         else:
             ck("suffixes", "l[i:] in order", r["suffixes"], want_suf)
         want_sub = sorted(s[i:j] for i in range(n) for j in range(i + 1, n + 1))
         if isinstance(r["sublists"], Exc):
             ck("sublists", "raises", r["sublists"], want_sub)
         else:
-            g = seqs(r["sublists"])
+            g = norm(r["sublists"], 2)
             self.holds("sublists", "all contiguous non-empty sublists, each once per position", inp, sorted(g) == want_sub, r["sublists"])
             self.holds("sublists", "n(n+1)/2 of them", inp, len(g) == n * (n + 1) // 2, len(g))
         if r["powerset"] is not None:
@@ -389,7 +397,7 @@ class Oracle:
             if isinstance(r["powerset"], Exc):
                 ck("powerset", "raises", r["powerset"], want_pow)
             else:
-                g = seqs(r["powerset"])
+                g = norm(r["powerset"], 2)
                 self.holds("powerset", "all subsequences, one per position set", inp, sorted(g) == want_pow, r["powerset"])
                 self.holds("powerset", "2^n of them, [] first", inp, len(g) == 2 ** n and g[0] == [], len(g))
         if r["permutations"] is not None:
@@ -397,7 +405,7 @@ class Oracle:
             if isinstance(r["permutations"], Exc):
                 ck("permutations", "raises", r["permutations"], want_perm)
             else:
-                g = seqs(r["permutations"])
+                g = norm(r["permutations"], 2)
                 self.holds("permutations", "n! of them", inp, len(g) == math.factorial(n), len(g))
                 self.holds("permutations", "all rearrangements, one per rearrangement of positions", inp, sorted(g) == sorted(want_perm), r["permutations"] if n < 4 else "...")
                 if not is_str:
@@ -407,7 +415,7 @@ class Oracle:
                                cls="permutations-empty" if n == 0 else None)
         ck("group", "itertools.groupby", r["group"], [list(g) for _, g in itertools.groupby(s)])
         if not isinstance(r["group"], Exc):
-            g = seqs(r["group"])
+            g = norm(r["group"], 2)
             self.holds("group", "concatenates back, groups constant, neighbours differ", inp,
                        [x for grp in g for x in grp] == s and all(grp and len(set(grp)) == 1 for grp in g)
                        and all(a[0] != b[0] for a, b in zip(g, g[1:])), r["group"])
@@ -422,8 +430,8 @@ class Oracle:
         ck("tail_remove", "l[:-1]", r["tail_remove"], s[:-1])
         ck("length", "len()", r["length"], n)
         if n and not any(isinstance(r[k], Exc) for k in ("head", "tail", "head_remove", "tail_remove")):
-            self.holds("head", "[head] + head_remove = l", inp, seqs([r["head"]]) + seqs(r["head_remove"]) == seqs([s[0]]) + s[1:], (r["head"], r["head_remove"]))
-            self.holds("tail", "tail_remove + [tail] = l", inp, seqs(r["tail_remove"]) + seqs([r["tail"]]) == s[:-1] + seqs([s[-1]]), (r["tail_remove"], r["tail"]))
+            self.holds("head", "[head] + head_remove = l", inp, [r["head"]] + norm(r["head_remove"], 1) == s, (r["head"], r["head_remove"]))
+            self.holds("tail", "tail_remove + [tail] = l", inp, norm(r["tail_remove"], 1) + [r["tail"]] == s, (r["tail_remove"], r["tail"]))
         for x, cnt, con, fnd in r["queries"]:
             q = {"list": l, "x": x}
             self.check("count", "list.count", q, cnt, s.count(x))
@@ -434,7 +442,7 @@ class Oracle:
             if k > 0:
                 self.check("wrap", "chunks l[i:i+k]", q, w, [s[i:i + k] for i in range(0, n, k)])
                 if not isinstance(w, Exc):
-                    g = seqs(w)
+                    g = norm(w, 2)
                     self.holds("wrap", "concatenates back; all chunks but the last have length k", q,
                                [x for ch in g for x in ch] == s and all(len(ch) == k for ch in g[:-1]) and all(0 < len(ch) <= k for ch in g[-1:]), w)
             else:
@@ -454,7 +462,7 @@ class Oracle:
         if isinstance(r["cart"], Exc):
             self.check("cart", "raises", inp, r["cart"], want)
         else:
-            g = seqs(r["cart"])
+            g = norm(r["cart"], 2)
             self.holds("cart", "every pair exactly once", inp, sorted(g) == want, r["cart"])
             self.holds("cart", "|a|*|b| pairs", inp, len(g) == len(sa) * len(sb), len(g))
 
@@ -592,7 +600,7 @@ def render_unary(env, item, r):
     for name, ty, rend, _, _ in UCOMP:
         v = r[name]
         if name == "permutations" and v is not None and not isinstance(v, Exc):
-            v = seqs(v)      # the implementation joins an empty tuple into '' (oracle: permutations-empty)
+            v = norm(v, 2)   # the implementation joins an empty tuple into '' (oracle: permutations-empty)
         try:
             if isinstance(v, Exc):
                 raise Shape(v)
